@@ -152,6 +152,12 @@ NESTP = {"C01": 0.2, "C03": 0.3, "C14": 0.3, "C05": 0.1, "C07": 0.2}
 BACKOFFP = {"C03": 0.25, "C01": 0.1}
 
 
+# share of bindings bound as HandlersBind(&struct) - methods, func fields, methods /
+# func fields promoted from an embedded struct - instead of handler maps (C05: "the
+# bound handlers run ... once per changed state per binding", whatever the binding form)
+FORMSP = {"C05": 0.5}
+
+
 def prop_of_plan(plan):
     for tier in PLANS.values():
         for prop, pl in tier.items():
@@ -168,6 +174,7 @@ def generate(binary, plan, outdir, sd, nestp=0.0):
         rc, out = run([binary, "seq", "-mode", mode, "-n", str(n), "-calls", str(calls),
                        "-seed", str(sd * 1000 + k), "-vetop", str(vetop), "-nestp", str(nestp),
                        "-backoffp", str(BACKOFFP.get(prop_of_plan(plan), 0.0)),
+                       "-forms", str(FORMSP.get(prop_of_plan(plan), 0.0)),
                        "-out", pref, "-shards", "16" if os.environ.get("VERIF_TIER", "quick") == "quick" else "64"],
                       timeout=1200 if os.environ.get("VERIF_TIER", "quick") == "quick" else 6000)
         if rc != 0:
@@ -203,6 +210,25 @@ def nontrivial_stats(files, limit_samples=4):
                         samples.append({k: x[k] for k in ("mut", "accepted", "before", "after",
                                                           "tb", "ta", "target", "vetoed")})
     return ntx, len(keys), samples
+
+
+def form_stats(files):
+    """bindings per binding form (hs.binds[i].form of the init lines) and, per form,
+    the accepted transitions that ran at least one of the binding's handlers."""
+    forms, ran = Counter(), Counter()
+    for fn in files:
+        cur = []
+        for l in open(fn):
+            if l.startswith('{"ev":"init"'):
+                hs = json.loads(l)["hs"]
+                cur = [b.get("form", "map") for b in hs["binds"]] if hs["on"] else []
+                forms.update(cur)
+            elif l.startswith('{"ev":"tx"') and cur:
+                x = json.loads(l)
+                for b in {c["b"] for c in x["hlog"]}:
+                    if 1 <= b <= len(cur):
+                        ran[cur[b - 1]] += 1
+    return dict(forms), dict(ran)
 
 
 def validate(prop, files, rep, formulas=None):
@@ -249,6 +275,12 @@ def check(prop, tier):
             faults_part(binary, tier, sd, d, rep)
         if prop == "C14":
             many_goroutines_part(binary, tier, sd, d, rep)
+        if prop in FORMSP:
+            forms, ran = form_stats(files)
+            rep.coverage["binding_forms"] = forms
+            rep.coverage["binding_form_transitions"] = ran
+            if len([f for f in forms if f != "map"]) < 4:
+                raise Inconclusive("the struct binding forms were not exercised: %s" % forms)
         rep.coverage.update(
             traces_validated_against_impl=ncases, evaluations=ntx, distinct_nontrivial=distinct,
             trace_lines=lines,
